@@ -2,7 +2,7 @@
 
 SPEC = {
     "props": ["Props.C12"],
-    "tie": ["Tie.C12", "Tie.C11"],  # Client.Checkpoint verifies with NewRFC6962Verifier (checkpoint.go), whose guards are tied in Tie.C11
+    "tie": ["Tie.C12", "Tie.C11", "Tie.C10"],  # Client.Checkpoint verifies with NewRFC6962Verifier (checkpoint.go), whose guards are tied in Tie.C11
     "engines": [{"engine": "client", "timeout": 1500}],
     "required_theorems": [
         "C12_entries_authentic", "C12_entries_authentic_tiles", "C12_entry_index", "C12_entry_index_strict", "C12_inclusion", "C12_checkpoint",
